@@ -78,6 +78,7 @@ func (g gIg) json() string {
 func runC20(e *core.Env) error {
 	r := e.Rand
 	ctx := context.Background()
+	dashboardRange(e, "c20")
 	// ---- (1) loadTasks
 	for s := 0; s < e.N(60, 800) && !e.OverBudget(); s++ {
 		rr := r.Fork()
@@ -813,4 +814,84 @@ func inflightScenario(ctx context.Context, s int) (string, []string) {
 		}
 	}
 	return verdict, []string{fmt.Sprintf("held-step=%d", nth)}
+}
+
+// dashboardRange: an integration submitted to the RUNNING program through POST /save-integration with a
+// start and a stop on its source reference is stored, loaded and run with exactly that range (C06: only
+// blocks inside the configured range; C20: each task with the integration's start and stop).
+func dashboardRange(e *core.Env, key string) {
+	ctx := context.Background()
+	for vi, rng := range [][2]uint64{{3, 5}, {2, 2}, {4, 0}} {
+		verdict := func() string {
+			pg := fakepg.New()
+			url, _ := pg.Start()
+			pool, err := pgxpool.New(ctx, url)
+			if err != nil {
+				return "setup: " + err.Error()
+			}
+			node := simnode.NewNode(transferChain(9, uint64(60+vi)))
+			defer func() {
+				node.Close()
+				go pool.Close()
+				pg.Close()
+			}()
+			conf := config.Root{Sources: []config.Source{{Name: "s1", ChainID: 1, URLs: []string{node.URL() + "/nocache"}, PollDuration: 3 * time.Millisecond, BatchSize: 2}}}
+			if err := config.ValidateFix(&conf); err != nil {
+				return "setup: " + err.Error()
+			}
+			mgr := shovel.NewManager(ctx, pool, conf)
+			go func() {
+				for {
+					mgr.Updates()
+				}
+			}()
+			ec := make(chan error)
+			go mgr.Run(ec)
+			if err := <-ec; err != nil {
+				return "first run: " + err.Error()
+			}
+			g := gIg{name: "igrange", enabled: true, srcs: []string{"s1"}, refs: [][3]uint64{{0, rng[0], rng[1]}}}
+			root := config.Root{Integrations: []config.Integration{g.cfg()}}
+			config.ValidateFix(&root)
+			conn, _ := pool.Acquire(ctx)
+			config.Migrate(ctx, conn, root)
+			conn.Release()
+			wh := web.New(mgr, &conf, pool)
+			req := httptest.NewRequest("POST", "/save-integration", strings.NewReader(g.json()))
+			rec := httptest.NewRecorder()
+			wh.SaveIntegration(rec, req)
+			if rec.Code != 200 {
+				return fmt.Sprintf("the dashboard refused to store the integration: %d %s", rec.Code, trunc2(rec.Body.String()))
+			}
+			ts, err := shovel.VerifLoadTasks(ctx, pool, conf)
+			if err != nil {
+				return "load: " + err.Error()
+			}
+			found := false
+			for _, t := range ts {
+				if t.IG == "igrange" {
+					found = true
+					if t.Start != rng[0] || t.Stop != rng[1] {
+						return fmt.Sprintf("submitted with start %d stop %d, loaded with start %d stop %d", rng[0], rng[1], t.Start, t.Stop)
+					}
+				}
+			}
+			if !found {
+				return "the stored integration is not loaded"
+			}
+			time.Sleep(200 * time.Millisecond)
+			for _, r := range pg.Rows("shovel.task_updates") {
+				if fmt.Sprint(r["ig_name"]) != "igrange" {
+					continue
+				}
+				var n uint64
+				fmt.Sscan(fmt.Sprint(r["num"]), &n)
+				if n < rng[0] || (rng[1] > 0 && n > rng[1]) {
+					return fmt.Sprintf("position %d recorded outside the submitted range %d..%d", n, rng[0], rng[1])
+				}
+			}
+			return "ok"
+		}()
+		e.Add(core.Case{Impl: verdict, Spec: "ok", Key: fmt.Sprintf("%s-dashboard-range %d-%d", key, rng[0], rng[1]), Nontrivial: true, Tags: []string{"range-submitted-through-dashboard"}})
+	}
 }
